@@ -6,6 +6,7 @@ import GV.Model.PreserveTypes
   ops (feed_impl):
     blk <era> <desc> <hex> \t <impl>    stored spans of block/header/bodies/witness sets/aux/outputs + hash flag
     enc <kind> <era> <desc> <hex> \t <impl>   re-serialisation of unmodified decoded objects
+    reuse <kind> <era> <desc> <hexA> <hexB> \t <impl>   decode A, Hash(), decode B into the SAME object, Hash()
     tx  <era> <desc> <hex> \t <impl>    standalone transaction (NewTransactionFromCbor)
     hdr <era> <desc> <hex> \t <impl>    standalone block header (NewBlockHeaderFromCbor)
     body <era> <desc> <hex> \t <impl>   standalone transaction body (NewTransactionBodyFromCbor)
@@ -94,6 +95,24 @@ def handle (line : String) : Out :=
           | some ls, some h => fmtBlock b h ls
           | _, _ => "*"
         { model := model, spec := spec }
+    | ["reuse", _, _, _, hexA, hexB] =>
+      -- decode A, ask the identifier (cached), decode B into the same object, ask again:
+      -- evaluated with the model's object (digest := the bytes themselves)
+      if impl = "dec=err" then { model := "dec=err", spec := "*" } else
+      match parseHex? hexA, parseHex? hexB with
+      | some a, some b =>
+        let o1 := (hashOf (D := Bytes) id (decodeInto {} a)).2
+        let okA := (hashOf id (decodeInto ({} : Obj Bytes) a)).1 == a
+        if impl.endsWith "B:err" then
+          let m := s!"dec=ok A:h={if okA then "ok" else "bad"} B:err"
+          { model := m, spec := "*" }
+        else
+          let o2 := decodeInto o1 b
+          let st := if o2.stored == some b then "ok" else s!"!{(o2.stored.getD []).length}"
+          let hb := (hashOf id o2).1 == (o2.stored.getD [])
+          let m := s!"dec=ok A:h={if okA then "ok" else "bad"} B:st={st} h={if hb then "ok" else "bad"}"
+          { model := m, spec := "dec=ok A:h=ok B:st=ok h=ok" }
+      | _, _ => badOp
     | ["tx", era, _, hex] =>
       if impl = "dec=err" then { model := "dec=err", spec := "*" } else
       match parseHex? hex with
